@@ -17,13 +17,15 @@ Open Scope Z_scope.
 Inductive res (A : Type) : Type :=
 | Ok (a : A)
 | TooLarge          (* CollectionTooLargeException *)
-| Diverges.         (* the real evaluation does not terminate (only possible with N < 0) *)
+| Diverges          (* the real evaluation does not terminate (only possible with N < 0) *)
+| Unhashable.       (* TypeError: a finalised dictionary key is a plain list / dict / set (finding F8, C10) *)
 Arguments Ok {A} a.
 Arguments TooLarge {A}.
 Arguments Diverges {A}.
+Arguments Unhashable {A}.
 
 Definition res_map {A B} (f : A -> B) (r : res A) : res B :=
-  match r with Ok a => Ok (f a) | TooLarge => TooLarge | Diverges => Diverges end.
+  match r with Ok a => Ok (f a) | TooLarge => TooLarge | Diverges => Diverges | Unhashable => Unhashable end.
 
 (* ------------------------------------------------------------------------- *)
 (* the limiter on a lazy source                                              *)
@@ -116,15 +118,39 @@ Fixpoint seq_collect (rs : list (res val * nat)) : res (list val) * nat :=
     | Ok v => let '(rr, pp) := seq_collect rest in (res_map (cons v) rr, (p + pp)%nat)
     | TooLarge => (TooLarge, p)
     | Diverges => (Diverges, p)
+    | Unhashable => (Unhashable, p)
     end
   end.
 
-(* `result[rec(key)] = rec(value)`: Python evaluates the right-hand side first,
-   so the finalised items arrive as value, key, value, key, ... *)
-Fixpoint pair_up (l : list val) : list (val * val) :=
-  match l with
-  | v :: k :: r => (k, v) :: pair_up r
-  | _ => []
+(* can the finalised value be a dictionary key?  plain lists, dicts and sets cannot *)
+Fixpoint hashable (v : val) : bool :=
+  match v with
+  | VNull | VInt _ | VStr _ => true
+  | VTuple l => forallb hashable l
+  | _ => false
+  end.
+
+(* the pairs of a mapping, in order: `result[rec(key)] = rec(value)` - Python evaluates
+   the right-hand side first, so the VALUE is finalised before the KEY; the key is
+   finalised (and limited) like any other value, then hashed *)
+Fixpoint dict_collect (rs : list ((res val * nat) * (res val * nat))) : res (list (val * val)) * nat :=
+  match rs with
+  | [] => (Ok [], O)
+  | ((rx, px), (rk, pk)) :: rest =>
+    match rx with
+    | Ok vx =>
+      match rk with
+      | Ok vk => if hashable vk
+                 then let '(rr, pp) := dict_collect rest in (res_map (cons (vk, vx)) rr, (px + pk + pp)%nat)
+                 else (Unhashable, (px + pk)%nat)
+      | TooLarge => (TooLarge, (px + pk)%nat)
+      | Diverges => (Diverges, (px + pk)%nat)
+      | Unhashable => (Unhashable, (px + pk)%nat)
+      end
+    | TooLarge => (TooLarge, px)
+    | Diverges => (Diverges, px)
+    | Unhashable => (Unhashable, px)
+    end
   end.
 
 (* the limiting generator over a one-shot iterator whose items are finalised as
@@ -144,6 +170,7 @@ Fixpoint iter_collect (N : Z) (i : nat) (rs : list (res val * nat)) (endless : b
                    (res_map (cons v) rr, S (p + pp))
          | TooLarge => (TooLarge, S p)
          | Diverges => (Diverges, S p)
+         | Unhashable => (Unhashable, S p)
          end
   end.
 
@@ -166,8 +193,8 @@ Fixpoint fin (N : Z) (o : opts) (v : val) {struct v} : res val * nat :=
     else wrap (if sets_to_lists o then VList else VSet) (seq_collect (map (fin N o) l))
   | VDict kvs =>
     if too_large N (length kvs) then (TooLarge, O)
-    else wrap (fun l => VDict (pair_up l))
-              (seq_collect (flat_map (fun kv => let '(k, x) := kv in [fin N o x; fin N o k]) kvs))
+    else let r := dict_collect (map (fun kv => let '(k, x) := kv in (fin N o x, fin N o k)) kvs) in
+         (res_map VDict (fst r), snd r)
   | VIter l e => wrap VList (iter_collect N O (map (fin N o) l) e)
   end.
 
@@ -332,6 +359,7 @@ Definition res_eqb {A} (eqb : A -> A -> bool) (a b : res A) : bool :=
   | Ok x, Ok y => eqb x y
   | TooLarge, TooLarge => true
   | Diverges, Diverges => true
+  | Unhashable, Unhashable => true
   | _, _ => false
   end.
 
